@@ -519,8 +519,10 @@ class L:
                     res_v.status = 'violated'
                     res_v.model = w
                     res_v.detail = 'native replay reproduces: %s(%s) = %x, expected %x' % (self.native_name(spec), ','.join('%x' % x for x in w['inputs']), w['native'], w['expected'])
-                    if res_r.status != 'proved':
-                        res_r.status = 'inconclusive'
+                    if res_r.status != 'proved' or w['native'] >= p:
+                        res_r.status = 'violated'
+                        res_r.model = w
+                        res_r.detail = res_v.detail
                 else:
                     for r in (res_r, res_v):
                         if r.status == 'sat':
@@ -554,6 +556,35 @@ class L:
         fc = field_consts(self.consts, spec.which)
         p = fc['p']
         nat = self.native_name(spec)
+        # (0) boundary witnesses replayed natively first: the modulus itself and its neighbours, 2^256-1, powers of
+        # two, R mod p ... (only inputs admissible for the kernel: below p unless it accepts any 256-bit value)
+        import itertools
+        top = RR if spec.any256 else p
+        bc = [x % top for x in (0, 1, 2, p - 1, p - 2, (p - 1) // 2, (p + 1) // 2, RR % p, (RR * RR) % p, RR - p, 1 << 64, (1 << 64) - 1, 1 << 128, 1 << 192, (1 << 255) % top)]
+        if spec.any256:
+            bc += [p, p + 1, RR - 1, 2 * p - RR if 2 * p > RR else p + 2]
+        bc = sorted(set(bc))
+        nops = spec.nops
+        combos = itertools.product(bc, repeat=nops) if nops <= 2 else [tuple(bc[(i + j) % len(bc)] for j in range(nops)) for i in range(len(bc))] + [tuple([p - 1 - j for j in range(nops)])]
+        try:
+            for inputs in combos:
+                inputs = list(inputs)
+                got = native_kernel(nat, inputs)
+                want = ref_kernel(nat, inputs, p)
+                if got != want:
+                    return dict(op=nat, inputs=inputs, native=got, expected=want)
+            # top-heavy operands (all within 2^-8 of the top of the admissible range): the accumulations of the lazy
+            # reduction reach their maximum only there (extra carry limb, result needing the maximal number of subtractions)
+            import random
+            rnd = random.Random(11 + self.seed)
+            for _ in range(600):
+                inputs = [top - 1 - rnd.randrange(1 << 247) for _ in range(nops)]
+                got = native_kernel(nat, inputs)
+                want = ref_kernel(nat, inputs, p)
+                if got != want:
+                    return dict(op=nat, inputs=inputs, native=got, expected=want)
+        except Exception:
+            pass
         t_end = time.time() + max(600, budget_ms / 1000.0 * 6)
         fixed_sets = [None]
         if spec.op == 'mul':
